@@ -59,8 +59,24 @@ claim("C09",
       "Trusted: rustc MIR; AES-GCM; rand_bytes(). Not decided: cryptographic and byte-level tamper outcomes, truncation arithmetic, that every chunk (not only the loop) is encrypted.",
       "table agreement (ADT fields vs fields read), backward slicing of AEAD operands, dominance, forward taint, error-discipline check", "DESIGN §4 C09")
 
+claim("C10",
+      "Decides the lock and commit skeleton of the B-tree index: mutation gate mode and liveness at every mutable access plus the who-may-mutate table, the manifest commit protocol of the index "
+      "and of its anda_db wrapper, in-lock re-checks of the ordered key set, loader order, depth check before recursion. Ordered-multimap equivalence is not decided.",
+      "Trusted: rustc MIR; DashMap/parking_lot locks; the collection's exclusive gate separates flush from mutation (C05). Not decided: model equality, early termination positions, crash-prefix content.",
+      "guard-liveness dataflow, who-may-mutate tables from field-resolved receivers, CFG ordering on Ok edges, bool-edge dominance", "DESIGN §4 C10")
+claim("C11",
+      "Decides the mutation gate and manifest commit skeleton of the full-text index (with a sibling-agreement check against the B-tree protocol), that ranking uses one total-order comparator "
+      "(total_cmp + id) everywhere with truncate-after-select then sort, that scoring parameters pass through sanitized(), and the live-document filter and NOT-complement guard. Retrieval exactness is not decided.",
+      "Trusted: rustc MIR; f32::total_cmp total order; locks. Not decided: retrieval-set exactness, scores, counters over histories.",
+      "guard-liveness dataflow, CFG ordering, sibling skeleton agreement, who-reads-field table, fn-item operand resolution of comparators", "DESIGN §4 C11")
+claim("C12",
+      "Weakest claim: decides only persistence order (nodes -> ids -> metadata -> commit, stop/err edges, purge after flush, tombstone after acknowledged delete, conditional puts), structural-lock "
+      "coverage of every structural write, and the result bound / input validation / no-duplicate-neighbour structure of search. Distances, ordering by the metric and recall floors are NOT decided.",
+      "Trusted: rustc MIR; parking_lot Mutex. Not decided (the bulk of the property): true distances, metric ordering, recall floors and margins, graph repair quality.",
+      "CFG ordering and Ok/Err/bool-edge reachability, guard-liveness dataflow incl. helper-caller check, must-pass-through of truncate(top_k)", "DESIGN §4 C12")
+
 _pending = "rules for this property are not built yet in this round (see DESIGN §10 order of work); not claimed until they are"
-for pid in ["C10", "C11", "C12", "C13", "C14", "C15", "C16", "C17", "C18", "C19"]:
+for pid in ["C13", "C14", "C15", "C16", "C17", "C18", "C19"]:
     NA[pid] = _pending
 NA["C20"] = ("every clause is an algebraic law over runtime multisets of assertions (permutation invariance, monotone score fold, thresholds); "
              "no clause is visible in the shape of the code, so static analysis cannot decide it (DESIGN §6)")
